@@ -212,6 +212,15 @@ def run_case(case: Case, rep, want=("C01", "C03"), timeout=20.0, validate=True):
                     indep("%s|p%d|jac:%s/%s[%d]" % (case.name, pi, key[0], key[1], k), x,
                           {"case": case.name, "path": plabel, "what": "jac", "of": key[0], "wrt": key[1], "k": k,
                            "pi": pi})
+            # a second linearisation at the same point, with no compute() in between, reports the same derivatives
+            if "jac_again" in res:
+                for key in r.jinfo:
+                    if key in r.approx_keys:
+                        continue
+                    first, again = np.asarray(res["jac"][key], dtype=object).ravel(), np.asarray(res["jac_again"][key], dtype=object).ravel()
+                    for k, (x1, x2) in enumerate(zip(first, again)):
+                        c03.append(oblig.Ob("%s|p%d|jac2:%s/%s[%d]" % (case.name, pi, key[0], key[1], k), lhs=S(x2), rhs=S(x1), assume=passume, kind="indep",
+                                            meta={"case": case.name, "path": plabel, "what": "jac_again", "of": key[0], "wrt": key[1], "k": k, "pi": pi}))
 
         # ---------------- C01: J_code == d out / d in
         if "C01" in want:
